@@ -21,15 +21,16 @@ Theorem C19_eval_total : forall e src,
 Proof. exact eval_model_total. Qed.
 Print Assumptions C19_eval_total.
 
-(** Expand never panics on parser-shaped words: for every word in which a single-quoted or
+(** Expand is total on parser-shaped words: for every word in which a single-quoted or
     backslash-quoted part holds at most one literal (the shape the parser builds; the harness
-    checks it on every word of every accepted source), every environment, mode, pathname oracle
-    and recursion budget, the model of Expand (compared with ExecEnv.Expand on every run by C13,
-    C14, C15, C20) ends with fields, a documented error, or an exhausted budget -- never at a
-    panic site (quote with a non-literal inside, field splitting out of range, arithmetic). *)
-From GoSh Require Import Expand.Expand Expand.NoPanic.
-Theorem C19_expand_never_panics :
+    checks it on every word of every accepted source), every environment, mode and pathname
+    oracle, the model of Expand (compared with ExecEnv.Expand on every run by C13, C14, C15, C20)
+    ends with fields or with a documented error: it reaches no panic site (quote with a
+    non-literal inside, field splitting out of range, arithmetic) and its recursion budget always
+    suffices. *)
+From GoSh Require Import Expand.Expand Expand.NoPanic Expand.Fuel.
+Theorem C19_expand_total :
   forall users glob e w m, wfw w = true ->
-    match expand_top users glob e w m with Panic _ => False | _ => True end.
-Proof. exact expand_top_nopanic. Qed.
-Print Assumptions C19_expand_never_panics.
+    match expand_top users glob e w m with Ok _ | Err _ => True | Panic _ | OutOfFuel => False end.
+Proof. exact expand_top_total. Qed.
+Print Assumptions C19_expand_total.
